@@ -501,7 +501,7 @@ def run(p: Program, rep: Report, tier: str) -> None:
     # When a byte count is given, (a) every read asks for min(chunk, <remaining>) where <remaining> is computed from the
     # count with no fall-back value, and (b) the loop's stop condition is computed from the count bookkeeping - not from a
     # short read, which also happens exactly at a chunk boundary only AFTER one chunk too many was sent.
-    from ..common import guards_of as _gof, parents as _parents
+    from ..common import norm_guards as _gof, parents as _parents
     cs = p.cls("baize.asgi.responses:FileResponse").methods.get("create_send_or_zerocopy")
     fs = None
     if cs is not None:
